@@ -26,8 +26,15 @@ checks = {
 }
 
 
-FL_NOTE = "Trusted: harness projection/concretization (round-trip self-checked per case), membership in W by construction of the generator, TLC/SANY/Json module, go-openapi/spec (loader, ExpandSpec) as environment. Bounds: quick 60 bundles x 6-8 option sets (schema depth <= 3, <= 5 root definitions, <= 3 auxiliary documents); thorough 700 bundles."
-FL_TECH = "TLA+ predicates (FlattenProps.tla over RefSem.tla bisimulation / Swagger.tla typing) evaluated by TLC on states recorded from the real Flatten (Trace_Flatten): initial bundle, rewritten document, outcome, second pass, analyzer state"
+FL_NOTE = ("Trusted: harness projection/concretization (round-trip self-checked per case), membership in W by construction of the generators, TLC/SANY/Json module, go-openapi/spec (loader, ExpandSpec) as environment. "
+           "Bounds: quick = directed corpus + 400 sampled scenarios + 36 MC_Keys names + 60 random bundles, each x 6-8 option sets (phase snapshots for a rotating third of the runs); "
+           "thorough = all 9912 scenarios + all 819 names + 700 random bundles. MC_Flatten covers bundles without name collisions (the OAIGen de-duplication decisions are validated per event from the log, not explored). "
+           "Two known findings are listed by signature in KNOWN_FINDINGS.txt (go-openapi/spec ExpandSpec; stripOAIGen order dependence).")
+FL_TECH = ("explicit TLA+ spec of the flatten pipeline (Flatten.tla: ExpandShared/ExpandAll, ImportLoop, NameLoop, PointerLoop, RemoveAll) explored exhaustively by TLC "
+           "(MC_Flatten: scenario family x option sets, the properties as invariants, C01 inductive over phases); scenario family with W invariants (MC_FlattenScen, 9912 bundles) and "
+           "character-class model of the escaping layers (MC_Keys) exported and replayed; TLA+ predicates (FlattenProps.tla over RefSem.tla bisimulation / Swagger.tla typing) evaluated by TLC "
+           "on states recorded from the real Flatten (Trace_Flatten): initial bundle, snapshot after every phase and loop round (verif hooks), rewritten document, outcome, second pass, analyzer state; "
+           "step-level conformance of every recorded phase transition against the operators of Flatten.tla with logged arguments")
 checks.update({
  "C01": dict(technique=FL_TECH + "; C01 = bisimilarity of the $ref-unfolded trees section by section and definition by definition",
    text="model_checking (trace validation): for every generated bundle of W and every option set the real Flatten is run; TLC decides SameMeaning (reachable-pairs bisimulation of the $ref-unfolded documents) for paths and every other top-level member, the shared sections (unless RemoveUnused), and every pre-existing definition, plus 'only definitions are added' and 'x-go-gen-location only on new definitions'.",
